@@ -36,7 +36,7 @@ def main():
                 shutil.copy(os.path.join(outdir, f), dest)
         readme = open(os.path.join(dest, "README.md")).read()
         cands = re.findall(r"`(sh [^`]*run\.sh)`", readme) + re.findall(r"`((?:cd [^`&]*&& )?(?:g\+\+|python3)[^`]*)`", readme)
-        cands += [l.strip() for l in readme.splitlines() if l.startswith("    g++") and "demo" in l]
+        cands += [l.strip() for l in readme.splitlines() if (l.startswith("    g++") or l.startswith("    cd ")) and "demo" in l]
         if not cands:
             cands = [l.strip() for l in readme.splitlines() if l.strip().startswith(("g++", "python3"))]
         cmd = None
